@@ -22,7 +22,13 @@ MANIFEST = {
             "AAD libcoap's client verifies a response with are RFC 8613 8.4's for that binding), rejected_response_keeps_binding, "
             "sequence_roundtrip (for every sequence and every token still bound: the server that verifies the latest request obtains "
             "the same binding, and every response it protects for it, with or without its own Partial IV, is accepted and yields the "
-            "server's message; composes unprotect_protect_request/_response). On every run the real libcoap protects and unprotects "
+            "server's message; composes unprotect_protect_request/_response), sequence_roundtrip_server (the same with the form the "
+            "server really sends: own Partial IV iff asked for, or the response carries Observe, or it answers an Observe request), "
+            "observe_request_response_own_piv (a response to an Observe request is protected under the server's own Partial IV and "
+            "does not depend on the nonce of the request), request_nonce_at_most_once (a response protected with the nonce of its "
+            "request consumes the binding: no second response under that nonce), rejected_request_keeps_bindings (a request that does "
+            "not verify leaves every binding - S - and libcoap's association list - M - unchanged), observe_request_own_piv_impl "
+            "(libcoap's server session takes the Partial IV branch for every response to an Observe request). On every run the real libcoap protects and unprotects "
             "generated exchanges (all methods/response codes, option mixes incl. Observe/Block/Proxy-Scheme, payload to 1 KiB, ids 0..7 "
             "bytes, ID context/salt present/absent, Partial IV 0..2^40-2) and its datagrams and recovered messages must equal S's byte for "
             "byte (RFC 8613 Appendix C vectors included); SEQUENCES of 2-6 requests on one client/server session pair (token re-use "
@@ -81,7 +87,10 @@ REQUIRED_THEOREMS = ["ccm_roundtrip", "tamper_detected_iff_tag_mismatch", "optio
                      "rejected_response_keeps_binding", "sequence_roundtrip", "find_context_eq_spec", "find_context_complete",
                      "find_context_sound", "find_context_none_iff", "select_ctx_eq_find_context", "unprotect_any_eq",
                      "unprotect_protect_request_any", "request_for_unknown_context_rejected",
-                     "interleaved_contexts_roundtrip", "response_ctx_is_request_ctx_impl"]
+                     "interleaved_contexts_roundtrip", "response_ctx_is_request_ctx_impl",
+                     "unprotect_protect_response_for", "observe_request_response_own_piv", "plain_response_request_nonce",
+                     "rejected_request_keeps_bindings", "request_nonce_at_most_once", "sequence_roundtrip_server",
+                     "observe_request_own_piv_impl"]
 RULE = ("exchanges (one request and 0-3 responses/notifications per line) between a client and a server OSCORE context set up "
         "from master secret / salt / ID context / ids 0..7 bytes: all request methods and response codes, inner/outer option "
         "mixes incl. Observe, Block, Proxy-Scheme, Uri-Host/Port, Hop-Limit, No-Response, unknown options, payload 0..1 KiB, "
@@ -139,7 +148,9 @@ ASSUMPTIONS = ["cryptographic strength (AEAD unforgeability, HKDF/SHA-256 proper
 SPEC_DECISIONS = ["D14.1 outer code POST/2.04, FETCH/2.05 with Observe", "D14.2 outer options exactly Uri-Host, Uri-Port, Proxy-Scheme, "
                   "Hop-Limit, Observe, OSCORE", "D14.3 Observe inner+outer in requests, empty inner in responses; recipient sets it to the "
                   "3 low bytes of the notification's Partial IV", "D14.4 Partial IV 0 is one zero byte", "D14.5 response carries a Partial IV "
-                  "iff asked or Observe", "D14.6 kid context sent whenever an ID Context exists", "D14.7 piggybacked 2.xx response becomes "
+                  "iff asked, or it carries Observe, or it answers an Observe request (its binding is marked observe, D14.16): RFC 8613 "
+                  "5.2 / 8.3 let the nonce of a request protect at most one response and the binding of an Observe request outlives a "
+                  "response; otherwise the request nonce, and that response consumes the binding", "D14.6 kid context sent whenever an ID Context exists", "D14.7 piggybacked 2.xx response becomes "
                   "separate CON after an Empty ACK", "D14.8 lenient decompression where RFC 8613 §6.1 is silent", "D14.9 class E list = Figure 5 "
                   "+ Echo + Request-Tag", "D14.10 ID Context non-empty or absent, no Proxy-Uri", "D14.11 replay is C15's",
                   "D14.12 request must carry kid; kid in a response is not used", "D14.13 sequence numbers 0..2^40-2",
@@ -148,7 +159,11 @@ SPEC_DECISIONS = ["D14.1 outer code POST/2.04, FETCH/2.05 with Observe", "D14.2 
                   "token re-binds it; a response protected for a superseded request is verified against the new binding like any "
                   "datagram and is not taken for the answer unless it verifies (its AAD carries the old request_piv: it does not)",
                   "D14.16 a binding is consumed by the first response that verifies unless the request was an Observe registration "
-                  "(Observe 0); a response that does not verify changes nothing",
+                  "(Observe 0); a response that does not verify changes nothing, and neither does a request that does not verify (the "
+                  "binding a pending response is protected with is the latest VERIFIED request's); server side, where the RFCs do not "
+                  "say when a server forgets: a binding made or re-made by a request with an Observe option is marked observe, a marked "
+                  "binding stays after a response and stays marked when its token is re-used (libcoap never clears is_observe of a "
+                  "server-side association)",
                   "D14.17 replay of a notification is C15's subject, not judged here",
                   "D14.18 a request names the context whose Recipient ID is its kid and whose ID Context is its kid context (absent = "
                   "empty); the contexts an endpoint holds have pairwise different (Recipient ID, ID Context) (RFC 8613 3.3 deployment "
